@@ -229,3 +229,27 @@ package sql
 //@ func (*sqlMetadataStore).TransitionObject
 //@ mode effects
 //@ effect[C13:transition-keeps-last-modified] never sms.objectRepository.UpdateObjectByIdAndOptimisticLockVersion(_, _, _, _)
+
+// C02: unversioned / suspended writes replace only the null version (the same rules as the C13 clauses above, stated
+// for this property): rows and part rows are destroyed only after the null version of this key was looked up and found.
+//@ func (*sqlMetadataStore).PutObject
+//@ mode effects
+//@ requires obj != nil
+//@ effect[C02:put-destroys-only-the-null-version] every sms.removePartRowsByObjectId(_, _, _)
+//@     needs before sms.objectRepository.FindNullObjectVersionByBucketNameAndKey(_, _, $b, $k) -> ($n, $ne)
+//@     where $ne == nil && $n != nil && $b == bucketName && $k == obj.Key
+
+//@ func (*sqlMetadataStore).CompleteMultipartUpload
+//@ mode effects
+//@ effect[C02:complete-destroys-only-the-null-version] every sms.removePartRowsByObjectId(_, _, $id)
+//@     needs before sms.objectRepository.FindNullObjectVersionByBucketNameAndKey(_, _, $b, $k) -> ($n, $ne)
+//@     where $ne == nil && $n != nil && $id == *$n.Id && $b == bucketName && $k == key
+//@ effect[C02:complete-deletes-only-the-null-version-row] every sms.objectRepository.DeleteObjectById(_, _, $id)
+//@     needs before sms.objectRepository.FindNullObjectVersionByBucketNameAndKey(_, _, $b, $k) -> ($n, $ne)
+//@     where $ne == nil && $n != nil && $id == *$n.Id && $b == bucketName && $k == key
+
+//@ func (*sqlMetadataStore).AppendObject
+//@ mode effects
+//@ requires obj != nil
+//@ inline PutObject
+//@ effect[C02:in-place-append-only-to-the-null-version] every sms.objectRepository.UpdateObjectByIdAndOptimisticLockVersion(_, _, $e, _) where $e != nil && specNotAGeneratedVersion($e.VersionID)
